@@ -80,7 +80,7 @@ def _run(spec, w):
             elif op in ("slice", "mask"):
                 desc["unmodelled"] = True      # vector selection is C07's business
             if op in ("append", "stackdict"):
-                desc["vals_uid"] = [w.intern.uid(x) for x in st["vals"]]
+                desc["vals_uid"] = [w.intern.uid(x) for x in H.dvs(st["vals"])]
             if op == "stack" and w.kinds()[st["b"]] == "v" and len(w.slots[st["b"]]) != len(w.slots[st["a"]]):
                 desc["unmodelled"] = True      # nested non-Table result (boundary)
             src_is_table = w.kinds()[st.get("src", st.get("a", 0))] == "t" if isinstance(st.get("src", st.get("a")), int) else False
